@@ -2,6 +2,9 @@ module verifharness
 
 go 1.15
 
-require github.com/mdzio/go-mqtt v0.0.0
+require (
+	github.com/mdzio/go-logging v1.0.0
+	github.com/mdzio/go-mqtt v0.0.0
+)
 
 replace github.com/mdzio/go-mqtt => /repo
